@@ -262,7 +262,9 @@ func (m *dkgMaterial) spec(w *world.World, x *chainsim.Ctx, d dkgTxn, nonces map
 	default:
 		panic("unknown dkg txn kind " + d.kind)
 	}
-	return &world.TxnSpec{From: a, To: minerSC, Type: transaction.TxnTypeSmartContract, Nonce: nonces[a.ID], Data: world.SC(fn, in)}
+	data := world.SC(fn, in)
+	kindOf[data] = d.kind
+	return &world.TxnSpec{From: a, To: minerSC, Type: transaction.TxnTypeSmartContract, Nonce: nonces[a.ID], Data: data}
 }
 
 // vcRound: the transactions txs(view) of the round, then payFees by generator m0 (unless noPay:
